@@ -79,7 +79,7 @@ fn parse_step(s: &str) -> Option<Step> {
 impl Workload {
     fn line(&self) -> String {
         let mut s = format!("pad={} steps={}", self.pad, self.steps.iter().map(step_str).collect::<Vec<_>>().join(","));
-        if let Some((i, j, m)) = self.only { s.push_str(&format!(" at={}.{}.{}", i, j, m)); }
+        if let Some((i, j, m)) = self.only { s.push_str(&format!(" at={}.{}.{}", i, if j == usize::MAX { "e".to_string() } else { j.to_string() }, m)); }
         s
     }
     fn parse(l: &str) -> Option<Workload> {
@@ -91,7 +91,8 @@ impl Workload {
             } else if let Some(r) = tok.strip_prefix("at=") {
                 let v: Vec<&str> = r.split('.').collect();
                 if v.len() != 3 { return None; }
-                w.only = Some((v[0].parse().ok()?, v[1].parse().ok()?, v[2].chars().next()?));
+                w.only = Some((v[0].parse().ok()?, if v[1] == "e" { usize::MAX } else { v[1].parse().ok()? }, v[2].chars().next()?));
+            } else if tok.starts_with("why=") {
             } else { return None; }
         }
         Some(w)
